@@ -17,6 +17,7 @@ import (
 	"time"
 
 	pb "github.com/refraction-networking/conjure/proto"
+	"google.golang.org/protobuf/proto"
 
 	"verif/sim"
 	"verif/sim/hook"
@@ -187,6 +188,13 @@ func c06Scenario(r *sim.Run) {
 			}
 			c.covert = covert
 			c.v6 = false
+			if tp.Prob("prescanned", 1, 5) {
+				// forwarded by a peer station (or a client that sets the flag itself): the covert
+				// policy of THIS station applies all the same
+				c.flags = &pb.RegistrationFlags{Prescanned: proto.Bool(true)}
+				c.source = pb.RegistrationSource_DetectorPrescan
+				class += "+prescanned"
+			}
 			w.mu.Lock()
 			before := map[string]int{}
 			for k, v := range w.lookups {
